@@ -19,6 +19,7 @@ def shards(tier):
     out.append(dict(op="transfer", sgeo="p2x2", dgeo="t3x2", k=2, steps=1, partition_by="auto", washes=[1], ncand=2, comp=False, wl_max=common.BIG * 2, bcast=["src:scalar", "dst:list1", "vol:scalar", "src:list1+vol:list1"]))
     out.append(dict(op="transfer", sgeo="lt3x2", dgeo="p2x2", k=2, steps=1, partition_by="auto", washes=[1], ncand=2, comp=False, wl_max=common.BIG * 2))
     out.append(dict(op="aspirate", sgeo="lt3x2", dgeo="p2x2", k=2, steps=1, comp=False))
+    out.append(dict(op="transfer", sgeo="p2x2", dgeo="p2x2", k=4, steps=1, partition_by="auto", washes=[1], shape2d=True, comp=False, wl_max=common.BIG * 2))
     # a trough and a plate of identical shape in one worklist
     for sg, dg in [("t2x2", "p2x2"), ("p2x2", "t2x2")]:
         out.append(dict(op="transfer", sgeo=sg, dgeo=dg, k=2, steps=1, partition_by="auto", washes=[1], ncand=2, comp=False, wl_max=common.BIG * 2))
